@@ -1,3 +1,3 @@
 SPECIFICATION Spec
-CONSTANT AllowD1 = FALSE
+CONSTANT AllowD1 = TRUE
 CHECK_DEADLOCK FALSE
